@@ -30,8 +30,9 @@ v("C01", "key-from-bucket", KV, "key: cfg.Group,", "key: cfg.Bucket,", ["C01-R2"
 v("C01", "heartbeat-foreign-id", HB, "ID:       e.cfg.InstanceID,\n\t\t\t\tToken:    token,", "ID:       e.LeaderID(),\n\t\t\t\tToken:    token,",
   ["C01-R3"], "the refresh publishes the observed leader id instead of the configured instance id")
 # ---- C02
-v("C02", "no-liveness-guard", KV, "\tif e.ctx == nil || e.ctx.Err() != nil {\n\t\treturn false\n\t}\n\n\t// Context of this term",
-  "\t// Context of this term", ["C02-R2"], "becomeLeader claims leadership without checking that the election still runs")
+v("C02", "no-liveness-guard", KV, "\tif e.ctx == nil || e.ctx.Err() != nil {\n\t\treturn false\n\t}\n\n\t// A term is already running",
+  "\t// A term is already running", ["C02-R2"], "becomeLeader claims leadership without checking that the election still runs")
+v("C08", "double-promotion", KV, "\tif e.isLeader.Load() {\n\t\treturn false\n\t}\n\n\t// Context of this term", "\t// Context of this term", ["C08-R1"], "becomeLeader promotes an instance that already leads")
 v("C02", "claim-on-transient-update-error", KV, "\tnewRev, err := e.kv.Update(e.key, payloadBytes, entry.Revision())\n\tif err != nil {",
   "\tnewRev, err := e.kv.Update(e.key, payloadBytes, entry.Revision())\n\tif err != nil && IsPermanentError(err) {",
   ["C02-R1"], "after a transient takeover error the instance still claims leadership")
